@@ -133,6 +133,9 @@ def teardown_worker(k):
     shutil.rmtree(d, ignore_errors=True)
 
 
+FULL = False
+
+
 def run_one(d, c, amap, threads):
     res = {"id": c["id"], "file": c["file"], "line": c["line"], "op": c["op"], "old": c["old"].strip(), "new": c["new"].strip()}
     path = f"{d}/repo/{c['file']}"
@@ -168,7 +171,9 @@ def run_one(d, c, amap, threads):
     want = set(amap.get(c["file"], []))
     if "/datastructures/" in c["file"] or "/time/" in c["file"] or "/config/" in c["file"]:
         want |= {"C10", "C09", "C14", "C11", "C15", "C03", "C07"}
-    props = [p for p in SIM_CHECKS if p in want]
+    if "/filters/" in c["file"]:
+        want |= {"C02"}
+    props = [p for p in SIM_CHECKS if p in want or FULL]
     res["checks"] = {}
     detected = None
     for p in props:
@@ -206,10 +211,21 @@ def main():
         for x in c:
             by[x["file"]] = by.get(x["file"], 0) + 1
         print(len(c), "candidates", by)
-    elif cmd == "run":
+    elif cmd in ("run", "run2"):
         workers = opt("--workers", 6)
         limit = opt("--limit", 100000)
         cands = json.load(open(CANDS))
+        global OUT, FULL
+        if cmd == "run2":
+            # second pass: every test-silent survivor of pass 1 against the FULL battery of sim checks
+            surv = set()
+            for l in open(OUT):
+                r = json.loads(l)
+                if r["status"] == "survived" and r.get("existing_tests_failed") == 0:
+                    surv.add(r["id"])
+            cands = [c for c in cands if c["id"] in surv]
+            OUT = OUT.replace("campaign.jsonl", "campaign_pass2.jsonl")
+            FULL = True
         done = set()
         if os.path.exists(OUT):
             for l in open(OUT):
@@ -247,6 +263,13 @@ def main():
         sh(f"git -C {REPO} worktree prune")
     elif cmd == "report":
         rows = [json.loads(l) for l in open(OUT)]
+        p2 = OUT.replace("campaign.jsonl", "campaign_pass2.jsonl")
+        if os.path.exists(p2):
+            second = {json.loads(l)["id"]: json.loads(l) for l in open(p2)}
+            for r in rows:
+                if r["id"] in second and second[r["id"]]["status"] == "detected":
+                    r["status"] = "detected"
+                    r["detected_by"] = second[r["id"]]["detected_by"] + " (full battery)"
         st = {}
         for r in rows:
             st[r["status"]] = st.get(r["status"], 0) + 1
